@@ -124,6 +124,17 @@ CLAIMED = {
                   "incl. one shadowed by a node) are parsed by the real library and every reported component is recomputed by TLC from the same bytes.",
              note="Trusts TLC, gen/mtrlshpk.py; private fields are read through Debug formatting in the shim.",
              ref="5 C14"),
+ "C16": dict(cat="model_checking", tech="TLC model checking of the tag-file reader and deformer-walk state machines against a TLA+ writer / a declarative chain + TLC trace validation of real skeleton, deformer, scaling, terrain and layer-group calls",
+             text="HavokTag.tla is the version-3 binary tag file reader as a state machine (packed integers, remembered strings / types / objects, "
+                  "inheritance-flattened members, presence bit fields, structure arrays stored column by column, defaults, reference resolution) and the "
+                  "skeleton extraction; TLC explores it on every file of a small TLA+ writer (960 files: names, parents, decoys, absent members, padded "
+                  "integers, type orders) with progress, monotone tables, termination and decode(encode) = model, plus packed-integer and bit-field codec laws. "
+                  "Assets16.tla has the deformer walk as a state machine, checked on all forests of <= 4 items x all link permutations x all decided queries "
+                  "against a declarative ancestor-chain reading, and the scaling / terrain / layer layouts with exact int->f32 positions. Generated files "
+                  "are parsed (and terrains / layer groups written and re-parsed) by the real library and every result is recomputed by TLC from the bytes; "
+                  "the generator's own abstract skeleton is a third opinion.",
+             note="Trusts TLC and gen/assets16.py (independent writers); layouts recalled from public format descriptions; no-sibling and equal-id deformer queries unconstrained as the property states.",
+             ref="5 C16"),
 }
 HOOK_COMMITS = ["5eeb305"]
 REASON_PENDING = "check not built yet in this session (see DESIGN.md section 5); will be claimed when its trace specification exists"
